@@ -283,6 +283,12 @@ static std::string exec(const std::vector<std::string> &w) {
     // the library's own operator, registered on graph g (functions::stop_gradient would use a's graph)
     return reg(g, graphs[g]->add_operator(std::unique_ptr<Operator>(new operators::StopGradient()), {a}), true);
   }
+  if (op == "F" && w.size() == 3) {
+    int g = gidx(w[1]);
+    Node a = node_of(w[2]);
+    // the library's Flatten operator: forward returns a view sharing the argument's memory (copy-on-write must protect it)
+    return reg(g, graphs[g]->add_operator(std::unique_ptr<Operator>(new operators::Flatten()), {a}), true);
+  }
   if (op == "R" && w.size() == 2) {
     int g = gidx(w[1]);
     std::unique_ptr<UserOp> u(new UserOp(UserOp::RND, g, graphs[g]->num_operators()));
